@@ -1130,11 +1130,12 @@ func zipInnerSubscription[T any](subscriberCtx context.Context, obs Observable[T
 					if len(*values) == 0 {
 						mu.Unlock()
 						destination.CompleteWithContext(ctx)
+						subscriptions.Unsubscribe()
 					} else {
+						// values are still queued: keep the other sources, onUpdate completes
+						// the destination once this queue is drained
 						mu.Unlock()
 					}
-
-					subscriptions.Unsubscribe()
 				},
 			),
 		),
@@ -1184,7 +1185,7 @@ func ZipWith1[A, B any](obsB Observable[B]) func(Observable[A]) Observable[lo.Tu
 
 					if (completedA && len(valueA) == 0) ||
 						(completedB && len(valueB) == 0) {
-						destination.CompleteWithContext(ctx) // @TODO: Send the last context ?
+						defer destination.CompleteWithContext(ctx) // out of lock: the teardown takes mu. @TODO: Send the last context ?
 					}
 				}
 
@@ -1251,7 +1252,7 @@ func ZipWith2[A, B, C any](obsB Observable[B], obsC Observable[C]) func(Observab
 					if (completedA && len(valueA) == 0) ||
 						(completedB && len(valueB) == 0) ||
 						(completedC && len(valueC) == 0) {
-						destination.CompleteWithContext(ctx) // @TODO: Send the last context ?
+						defer destination.CompleteWithContext(ctx) // out of lock: the teardown takes mu. @TODO: Send the last context ?
 					}
 				}
 
@@ -1325,7 +1326,7 @@ func ZipWith3[A, B, C, D any](obsB Observable[B], obsC Observable[C], obsD Obser
 						(completedB && len(valueB) == 0) ||
 						(completedC && len(valueC) == 0) ||
 						(completedD && len(valueD) == 0) {
-						destination.CompleteWithContext(ctx) // @TODO: Send the last context ?
+						defer destination.CompleteWithContext(ctx) // out of lock: the teardown takes mu. @TODO: Send the last context ?
 					}
 				}
 
@@ -1407,7 +1408,7 @@ func ZipWith4[A, B, C, D, E any](obsB Observable[B], obsC Observable[C], obsD Ob
 						(completedC && len(valueC) == 0) ||
 						(completedD && len(valueD) == 0) ||
 						(completedE && len(valueE) == 0) {
-						destination.CompleteWithContext(ctx) // @TODO: Send the last context ?
+						defer destination.CompleteWithContext(ctx) // out of lock: the teardown takes mu. @TODO: Send the last context ?
 					}
 				}
 
@@ -1498,7 +1499,7 @@ func ZipWith5[A, B, C, D, E, F any](obsB Observable[B], obsC Observable[C], obsD
 						(completedD && len(valueD) == 0) ||
 						(completedE && len(valueE) == 0) ||
 						(completedF && len(valueF) == 0) {
-						destination.CompleteWithContext(ctx) // @TODO: Send the last context ?
+						defer destination.CompleteWithContext(ctx) // out of lock: the teardown takes mu. @TODO: Send the last context ?
 					}
 				}
 
@@ -1571,7 +1572,7 @@ func zipAllInnerSubscriptions[T any](outerCtx context.Context, sources []Observa
 
 			for i := range sources {
 				if completed[i] && len(values[i]) == 0 {
-					destination.CompleteWithContext(ctx) // @TODO: Send the last context ?
+					defer destination.CompleteWithContext(ctx) // out of lock: the teardown takes mu. @TODO: Send the last context ?
 					break
 				}
 			}
@@ -1615,6 +1616,11 @@ func ZipAll[T any]() func(Observable[Observable[T]]) Observable[[]T] {
 					subscriberCtx,
 					NewObserverWithContext(
 						func(ctx context.Context, flattenSources []Observable[T]) {
+							if len(flattenSources) == 0 {
+								destination.CompleteWithContext(ctx)
+								return
+							}
+
 							innerSub.Add(
 								// ...then we zip all inner observables.
 								zipAllInnerSubscriptions(ctx, flattenSources, destination),
@@ -1624,7 +1630,7 @@ func ZipAll[T any]() func(Observable[Observable[T]]) Observable[[]T] {
 							destination.ErrorWithContext(ctx, err)
 						},
 						func(ctx context.Context) {
-							destination.CompleteWithContext(ctx)
+							// the zipped observables complete the destination
 						},
 					),
 				)
